@@ -10,7 +10,7 @@
 """
 import argparse, json, os, re, shutil, subprocess, sys, time
 
-ENV = dict(os.environ, CARGO_NET_OFFLINE="true")
+ENV = dict(os.environ, CARGO_NET_OFFLINE="true", VERIF_NO_EVIDENCE="1")
 BASE = json.load(open("/root/.vp/BASELINE.json"))
 STABLE = set(BASE["stable_pass"])
 
